@@ -166,6 +166,32 @@ def NS.postAuthReply (st : NS) (id : Nat) : Option Reply :=
     | none => none
     | some peer => some (st.checkSession peer (s.conn.getD 0))
 
+/-- `ConnectionOpened` / `ConnectionOpenedExternal`: a new entry of `node_sessions` under the
+fresh actor id of the spawned `NodeSession`, nothing known about the peer yet -/
+def NS.open (st : NS) (id : Nat) (isServer : Bool) : NS :=
+  { st with sessions := st.sessions ++ [⟨id, isServer, none, none, false⟩] }
+
+/-- `NodeServer::handle_supervisor_evt` for `ActorTerminated` / `ActorFailed` of a session:
+`node_sessions.remove`, `connection_ids.remove`, `authenticated_sessions.remove` -/
+def NS.close (st : NS) (id : Nat) : NS :=
+  { st with sessions := st.sessions.filter (·.id != id) }
+
+def NS.closeAll (st : NS) (ids : List Nat) : NS := ids.foldl NS.close st
+
+/-- the sessions that claim (`register_session`) the peer name `peer` -/
+def NS.sessionsOf (st : NS) (peer : String) : List Nat :=
+  (st.sessions.filter (·.peerName == some peer)).map (·.id)
+
+/-- what is left of the bookkeeping: keys of `node_sessions`, of `connection_ids` (one entry
+per registered session) and `authenticated_sessions` -/
+def NS.residue (st : NS) : List Nat × List Nat × List Nat :=
+  (st.sessions.map (·.id), (st.sessions.filter (·.peerName.isSome)).map (·.id),
+   (st.sessions.filter (·.auth)).map (·.id))
+
+/-- run-time oracle: nothing of a closed session is left -/
+def residueOk (closed : List Nat) (ns ids auth : List Nat) : Bool :=
+  closed.all fun c => !ns.contains c && !ids.contains c && !auth.contains c
+
 def Reply.continues : Reply → Bool
   | .noOther => true
   | .thisContinues => true
@@ -224,5 +250,50 @@ def e2eDirectionAsModel (o : Ordering) (dirs : List Bool) (keptA : List Nat) : B
     | [i], .gt => dirs[i]? == some false
     | _, _ => true
   else true
+
+end Election
+
+/-! ### session death and reconnection (round 4) -/
+
+namespace Election
+
+/-- `ConnectionOpened{,External}`: a new, nameless, unauthenticated entry (= `NS.open`) -/
+def NS.opened (st : NS) (id : Nat) (isServer : Bool) : NS :=
+  { st with sessions := st.sessions ++ [⟨id, isServer, none, none, false⟩] }
+
+/-- what `GetSessions` lists -/
+def NS.listed (st : NS) : List Nat := (st.sessions.filter (·.auth)).map (·.id)
+
+end Election
+
+/-! ### the `NodeServerState` as a transition system (round 4) -/
+
+namespace Election
+
+/-- the messages that change `NodeServerState` (node.rs `handle` / `handle_supervisor_evt`) -/
+inductive NSOp
+  | opened (id : Nat) (isServer : Bool)          -- `ConnectionOpened{,External}`
+  | register (id : Nat) (peer : String) (connId : Nat)   -- `UpdateSession`
+  | commit (id : Nat)                             -- `ConnectionAuthenticated`
+  | close (id : Nat)                              -- `ActorTerminated` / `ActorFailed` of a session
+  deriving Repr, DecidableEq
+
+def nsStep (st : NS) : NSOp → NS
+  | .opened id srv => st.opened id srv
+  | .register id peer n => (st.register id peer n).1
+  | .commit id => match st.commit id with
+    | some (st', _, _) => st'
+    | none => st
+  | .close id => st.close id
+
+def nsRun (thisName : String) (ops : List NSOp) : NS := ops.foldl nsStep { thisName := thisName, sessions := [] }
+
+/-- session ids are never reused while a session with that id is in the table (actor ids are unique) -/
+def nsFresh : NS → List NSOp → Prop
+  | _, [] => True
+  | st, op :: rest =>
+    (match op with
+      | .opened id _ => ∀ s ∈ st.sessions, s.id ≠ id
+      | _ => True) ∧ nsFresh (nsStep st op) rest
 
 end Election
